@@ -140,6 +140,39 @@ def h_include(params, vals, ctx):
     return c01.decode_matches(isa, params["mn"], params["expect"], o.code[off:off + n], b + off, v2)
 
 
+def h_include_then_local(params, vals, ctx):
+    """'1:' of the including file is still the target of 'br 1' after an '.include' of a file that has its own '1:' and stops early."""
+    import os
+    from ref import pdp11_isa as isa
+    from ..common import BUILD, concretize
+    from ..symasm import write_aux_file
+    b, k = vals["B"], vals["K"]
+    require(0 <= b < 60000 and b % 2 == 0)
+    require(0 <= k <= 3)
+    k = concretize(k)
+    how, mn = params["how"], params["mn"]
+    inc = f"c04loc_{how}.mac"
+    write_aux_file("c04", inc, {"end": "1: nop\nnop\n.end\n1: nop\n", "once-second": ".once\n1: nop\nnop\n", "plain": "1: nop\nnop\n"}[how])
+    main = os.path.join(BUILD, "aux", "c04", f"mainloc_{how}_{mn}.mac")
+    first = f'.include "{inc}"\n' if how == "once-second" else ""
+    pad = ".word 0\n" * k
+    insn = "sob r2, 1" if mn == "sob" else "br 1"
+    text = ".link {B}\n" + first + "G: nop\n1: nop\n" + f'.include "{inc}"\n' + pad + insn + "\n"
+    o = assemble([(main, text)], vals, route=ctx.route, order=["B", "K"])
+    ctx.observe_outcome(o)
+    ctx.reach(o.status == "ok")
+    if o.status != "ok" or o.errors:
+        return False
+    pre = 4 if how == "once-second" else 0            # the first inclusion contributes its two words
+    inc_len = 0 if how == "once-second" else 4         # the second one nothing
+    off = pre + 4 + inc_len + 2 * k                     # where the branch stands
+    target = pre + 2                                    # the parent's '1:'
+    v2 = dict(vals)
+    v2["OFF"] = target - (off + 2)
+    expect = ([{"kind": "r", "reg": 2}] if mn == "sob" else []) + [{"kind": "disp", "offvar": "OFF"}]
+    return c01.decode_matches(isa, mn, expect, o.code[off:off + 2], b + off, v2)
+
+
 def obligations(tier, seed):
     obs = []
     mns = BRANCHES + ["sob"]
@@ -163,6 +196,21 @@ def obligations(tier, seed):
         for name, other in (("10", "8"), ("12", "10."), ("017", "15"), ("100", "64")):
             text = f".link {{B}}\nG: nop\n{other}$: nop\n{name}: nop\n{mn} {op}{name}\n"
             obs.append(_br(mn, f"numeric-local-{name}", text, 6, 8, {"OFF": {"c": -4}}))
+    # ---- 'numeric local label + bare octal offset': only the first number is a label, even when a label spelled like the offset exists
+    for mn in ("br", "bne", "sob"):
+        op = "%{R}, " if mn == "sob" else ""
+        for k, extra in ((2, ""), (4, ""), (4, "4: "), (10, "10: ")):
+            text = f".link {{B}}\nG: .word 0\n1: .word 0\n{extra}.blkb 20\n{mn} {op}1 + {k}\n"
+            kv = int(str(k), 8)
+            obs.append(_br(mn, f"local+octal-{k}" + ("-label-exists" if extra else ""), text, 20, 22, {"OFF": {"c": 2 + kv - 22}}))
+        text = f".link {{B}}\nG: .word 0\n1: .word 0\n2: .blkb 20\n{mn} {op}2 - 1 + 1\n"     # 'label 2' minus ONE plus ONE
+        obs.append(_br(mn, "local-octal+octal", text, 20, 22, {"OFF": {"c": 4 - 22}}))
+    # ---- a local label of the including file used after an include whose file stops early ('.end', second inclusion of a '.once' file)
+    for mn in ("br", "sob"):
+        for how in ("end", "once-second", "plain"):
+            obs.append(Ob(oid=f"include-then-local/{mn}/{how}", harness="pdpverif.props.c04:h_include_then_local", params={"mn": mn, "how": how},
+                          vars={"B": "int", "K": "int"}, timeout=300, per_path=90,
+                          note="G: nop / 1: nop / .include { 1: nop / nop / [.end] } / <K words> / br 1"))
     for mn in mns:
         op = "%{R}, " if mn == "sob" else ""
         # 1. '.+D' : every integer D
